@@ -81,6 +81,9 @@ structure Token where
   lineStart : Int := 0
   from_ : Int := 0
   to : Int := 0
+  /-- true byte offsets of the token in the source (ghost fields: not present in the Go code) -/
+  offFrom : Nat := 0
+  offTo : Nat := 0
 deriving Repr, DecidableEq, Inhabited
 
 structure LexErr where
@@ -105,6 +108,9 @@ structure LS where
   errs : List LexErr := []     -- errors of the token being scanned, oldest first
   panic : Bool := false
   convMissing : Bool := false
+  /-- ghost: bytes consumed so far, and the byte offset where the current token started -/
+  off : Nat := 0
+  tokOff : Nat := 0
 deriving Repr, Inhabited
 
 /-! ### character classes (tied to the Go functions by the extractor's predicate translation) -/
@@ -177,8 +183,8 @@ def convCount (conv : List (Bytes × Nat)) (s : Bytes) : Option Nat :=
 /-! ### primitive state operations -/
 
 def LS.next (l : LS) (n : Nat) : LS :=
-  if n > l.chunk.length then { l with panic := true, chunk := [], cur := l.cur + n }
-  else { l with chunk := l.chunk.drop n, cur := l.cur + n }
+  if n > l.chunk.length then { l with panic := true, chunk := [], cur := l.cur + n, off := l.off + l.chunk.length }
+  else { l with chunk := l.chunk.drop n, cur := l.cur + n, off := l.off + n }
 
 def LS.test (l : LS) (s : String) : Bool := (bytesOfString s).isPrefixOf l.chunk
 
@@ -188,7 +194,7 @@ def LS.err (l : LS) (loc : Loc) (msg : String) : LS := { l with errs := l.errs +
 def LS.setNow (l : LS) (k : TK) (s : Bytes) : LS :=
   { l with pre := l.now,
            now := { valid := true, line := l.line, lineStart := l.lineStart, from_ := l.tokStart,
-                    to := l.cur, kind := k, str := s } }
+                    to := l.cur, kind := k, str := s, offFrom := l.tokOff, offTo := l.off } }
 
 /-- the EOF token the look-ahead produces when the chunk is empty -/
 def LS.eofAhead (l : LS) : Token :=
@@ -463,8 +469,8 @@ def LS.scanShortString (l : LS) (conv : List (Bytes × Nat)) : LS × Bytes :=
       else
         let str := str ++ (ch.drop st).take (s.i - 1 - st)
         match convCount conv str with
-        | some n => ({ l with chunk := ch.drop s.i, cur := l.cur + n + 2 }, str)
-        | none => ({ l with chunk := ch.drop s.i, cur := l.cur + runeCount str + 2, convMissing := true }, str)
+        | some n => ({ l with chunk := ch.drop s.i, cur := l.cur + n + 2, off := l.off + s.i }, str)
+        | none => ({ l with chunk := ch.drop s.i, cur := l.cur + runeCount str + 2, convMissing := true, off := l.off + s.i }, str)
 
 /-- `scanIllegalToken`: (line break seen, token text) -/
 def LS.scanIllegal (l : LS) (conv : List (Bytes × Nat)) : LS × Bool × Bytes :=
@@ -478,8 +484,8 @@ def LS.scanIllegal (l : LS) (conv : List (Bytes × Nat)) : LS × Bool × Bytes :
   let str := ch.take (i - 1)
   let l := if i == 0 then { l with panic := true } else l
   match convCount conv str with
-  | some n => ({ l with chunk := ch.drop i, cur := l.cur + n }, lineFlag, str)
-  | none => ({ l with chunk := ch.drop i, cur := l.cur + runeCount str, convMissing := true }, lineFlag, str)
+  | some n => ({ l with chunk := ch.drop i, cur := l.cur + n, off := l.off + i }, lineFlag, str)
+  | none => ({ l with chunk := ch.drop i, cur := l.cur + runeCount str, convMissing := true, off := l.off + i }, lineFlag, str)
 
 /-- fixed-spelling tokens -/
 def LS.emit (l : LS) (n : Nat) (k : TK) (s : String) : LS := (l.next n).setNow k (bytesOfString s)
@@ -487,7 +493,7 @@ def LS.emit (l : LS) (n : Nat) (k : TK) (s : String) : LS := (l.next n).setNow k
 /-- `NextTokenStruct` when no look-ahead token is buffered: scans one token -/
 def LS.scanToken (l : LS) (conv : List (Bytes × Nat)) : LS :=
   let l := skipWs (l.chunk.length + 1) l
-  let l := { l with tokStart := l.cur }
+  let l := { l with tokStart := l.cur, tokOff := l.off }
   match l.chunk with
   | [] => l.setNow .eof (bytesOfString "EOF")
   | c :: r =>
@@ -542,7 +548,7 @@ def LS.scanToken (l : LS) (conv : List (Bytes × Nat)) : LS :=
 /-- `SkipFirstLineComment` (BOM and `#!` line) -/
 def LS.skipFirstLine (l : LS) : LS :=
   let l := match l.chunk with
-    | 239 :: 187 :: 191 :: r => { l with chunk := r }
+    | 239 :: 187 :: 191 :: r => { l with chunk := r, off := l.off + 3 }
     | _ => l
   match l.chunk with
   | 35 :: _ =>
